@@ -1,6 +1,7 @@
 package miscchk
 
 import (
+	"strings"
 	"fmt"
 	"sort"
 	"testing"
@@ -78,7 +79,25 @@ func TestC48_GovernanceSettings(t *testing.T) {
 			invalidWhy := ""
 			n := rapid.IntRange(1, 6).Draw(t, "entries")
 			for i := 0; i < n; i++ {
-				switch rapid.IntRange(0, 9).Draw(t, "entryKind") {
+				switch rapid.IntRange(0, 10).Draw(t, "entryKind") {
+				case 10:
+					// a known name spelled with a surrounding blank (possibly next to its exact spelling, with another
+					// value): an unknown name as far as the settings table goes
+					sp := mutable[rapid.IntRange(0, len(mutable)-1).Draw(t, "which")]
+					for k, v := range sp.Fields() {
+						if strings.HasPrefix(k, "cost.") {
+							continue // the cost tables are open maps: any name after the prefix is a legitimate entry
+						}
+						if _, dup := fields[k]; !dup && rapid.Bool().Draw(t, "alsoExact") {
+							fields[k] = v
+						}
+						// whether such a spelling names the setting is the contract's call (the storage contract trims
+						// names, the miner contract does not): it is judged neither as valid nor as invalid, only by what an
+						// accepted update changes
+						bk := rapid.SampledFrom([]string{" " + k, k + " ", "\t" + k}).Draw(t, "blankSpelling")
+						fields[bk] = v
+						st.Class("entry_spelled_with_a_blank")
+					}
 				case 0:
 					fields[fmt.Sprintf("no_such_setting_%d", i)] = "1"
 					nInvalid++
@@ -135,6 +154,7 @@ func TestC48_GovernanceSettings(t *testing.T) {
 			mayChange := map[string]bool{}
 			for k := range fields {
 				mayChange[k] = true
+				mayChange[strings.TrimSpace(k)] = true
 			}
 			if target.NeedsCommit() {
 				// (before the demeter fork update_settings only stages the change; after it the contract applies it at once - both are judged on the result)
@@ -156,6 +176,7 @@ func TestC48_GovernanceSettings(t *testing.T) {
 					} else {
 						for k := range fields {
 							pending[k] = true
+							pending[strings.TrimSpace(k)] = true
 						}
 						st.Class("commit_refused_update_stays_staged")
 					}
